@@ -619,6 +619,11 @@ fn handle(w: &mut World, cap: &mut Capture, line: &str) -> String {
             let path = file_path(w, &dir, &[file]);
             let elsewhere = w.root.join("elsewhere");
             std::fs::create_dir_all(&elsewhere).unwrap();
+            // optional 4th word "rel": name the program by a relative path with a directory part
+            let rel = words.len() > 3 && words[3] == "rel";
+            let path = if rel {
+                std::path::PathBuf::from("..").join(path.strip_prefix(&w.root).unwrap())
+            } else { path };
             let outp = std::process::Command::new(bin)
                 .arg(&path)
                 .current_dir(&elsewhere)
